@@ -14,6 +14,7 @@ import (
 	"sort"
 	"strconv"
 	"strings"
+	"unicode/utf8"
 )
 
 var rng *rand.Rand
@@ -78,6 +79,16 @@ var nearNum = map[string]string{
 }
 var strPool = []string{"", "x", "hello", "100%d off", "50%", "%s%v%%", "<b>&", "  ", "a/b", "é", "\U0001F600", "q\"q", "back\\slash", "\x01\x1f", "tab\t", "é", "nul\x00"}
 
+// more awkward names and strings: percent signs (they reach fmt verbs in error messages) and the
+// raw line/paragraph separators (E2 80 A8 / E2 80 A9), which HTML escaping rewrites
+func init() {
+	keyPool = append(keyPool, "c%d", "50%", "%w", "100%s", "\xff\xff\xff\xff\xffabcdefgh")
+	// many bytes that are not valid UTF-8 (each decodes to the three-byte U+FFFD: the decoded string
+	// is longer than its spelling), early in a longer string
+	strPool = append(strPool, "\xff\xff\xff\xff\xffabcdefgh", "\x80\x80\x80\x80\x80\x80 and a tail of text", "\xc3\xc3\xc3\xc3\xc3\xc3xxxxxxxxxxxxxxxx", "a\xe2\x80b\xf0\x9fc\xed\xa0\x80defghijkl")
+	strPool = append(strPool, "l\xe2\x80\xa8s", "\xe2\x80\xa9", "a\xe2\x80\xa8b\xe2\x80\xa9c")
+}
+
 type genOpts struct {
 	depth      int
 	dupKeys    bool // allow duplicate member names
@@ -134,7 +145,14 @@ func spellStr(s string, g genOpts) string {
 	}
 	var sb strings.Builder
 	sb.WriteByte('"')
-	for _, r := range s {
+	for i := 0; i < len(s); {
+		r, size := utf8.DecodeRuneInString(s[i:])
+		if r == utf8.RuneError && size == 1 {
+			sb.WriteByte(s[i]) // a byte that is not valid UTF-8 goes into the text as it is
+			i++
+			continue
+		}
+		i += size
 		switch {
 		case r == '"' || r == '\\':
 			sb.WriteByte('\\')
@@ -725,4 +743,3 @@ func sharedSubtreePair(g genOpts) ([]byte, []byte) {
 	}
 	return []byte(doc), []byte(patch)
 }
-
